@@ -409,6 +409,8 @@ def fp_cover(key, all_names):
         if re.fullmatch(rf'impl (FieldElement for |Zero for |One for )?{T}', ctx):
             if fn == 'frobenius_map':
                 names = [n for n in all_names if n.startswith(f'{T}_frob')]
+            elif T == 'Fq2' and fn == 'from_slice':
+                names = ['Fq2_from_slice', 'Fq2_from_slice_toOption']
             else:
                 names = [f'{T}_{fn}']
     elif rel == 'groups.rs':
@@ -461,6 +463,8 @@ def fp_cover(key, all_names):
         # `impl From<Fr> / From<&Fr> / From<Fq> / From<Fq2> for [u8; N]` (the `;` of the header hides the context), in file order
         which = {'lib.rs::::from': 'LibFr_into_bytes', 'lib.rs::::from#2': 'LibFr_into_bytes_ref', 'lib.rs::::from#3': 'LibFq_into_bytes'}.get(key)
         names = [f'{which}_equiv', f'{which}_refines'] if which else None
+        if key == 'lib.rs::::from#4':
+            names = ['LibFq2_from']        # `impl From<Fq2> for [u8; 64]`
     elif rel == 'lib.rs' and re.fullmatch(r'impl (F[rq])|impl (FromStr|TryFrom < & \[ u8 \] >) for (F[rq])', ctx):
         # scalar / base field wrappers: limb level (Gen/LimbEquiv.lean: `LibFr_*`, `LibFq_*`, equivalence + value-level refinement)
         T = 'Lib' + (re.search(r'F[rq]$', ctx).group(0))
@@ -498,6 +502,25 @@ def fp_cover(key, all_names):
             names = ['LibG2Prepared_from']
         if ctx == '' and fn in ('pairing', 'fast_pairing'):
             names = [f'Lib_{fn}']
+        # value-level wrappers: `impl Fq2`, `TryFrom<&[u8]> for Fq2`, affine constructors / accessors / setters,
+        # `From<AffineGx> for Gx`, coordinate accessors / setters of G1 / G2, `Fr * Gx`
+        if ctx == 'impl Fq2' and fn in ('one', 'zero', 'new', 'is_zero', 'is_even', 'real', 'imaginary', 'sqrt', 'from_slice', 'to_slice',
+                                        'add_inplace', 'sub_inplace', 'mul_inplace', 'neg_inplace'):
+            names = [f'LibFq2_{fn}']
+        if ctx == 'impl TryFrom < & [ u8 ] > for Fq2' and fn == 'try_from':
+            names = ['LibFq2_try_from']
+        m = re.fullmatch(r'impl (AffineG[12])', ctx)
+        if m and fn in ('new', 'x', 'y', 'set_x', 'set_y'):
+            names = [f'Lib{m.group(1)}_{fn}']
+        m = re.fullmatch(r'impl From < AffineG([12]) > for G([12])', ctx)
+        if m and m.group(1) == m.group(2) and fn == 'from':
+            names = [f'LibG{m.group(1)}_from']
+        m = re.fullmatch(r'impl (G[12])', ctx)
+        if m and fn in ('x', 'y', 'z', 'b', 'set_x', 'set_y', 'set_z'):
+            names = [f'Lib{m.group(1)}_{fn}']
+        m = re.fullmatch(r'impl Mul < (G[12]) > for Fr', ctx)
+        if m and fn == 'mul':
+            names = [f'LibFr{m.group(1)}_mul']
     if not names or any(n not in all_names for n in names):
         return None
     return names
